@@ -52,6 +52,7 @@ class Stats:
         self.unsat = 0
         self.max_depth = 0
         self.unknown = 0
+        self.nontrivial = 0  # completed paths on which at least one obligation was discharged
 
     def as_dict(self):
         return dict(self.__dict__)
@@ -952,11 +953,14 @@ def explore(fn, max_paths=200000, timeout_ms=60000, stop_on_cex=True, want_witne
             break
         p = Path(prefix, res.stats, timeout_ms, pmodel)
         _CUR = p
+        proved0 = res.stats.proved
         try:
             out = fn()
             if p.dirty and p.check() != z3.sat:
                 raise PathAbort("assumptions infeasible")
             res.stats.paths += 1
+            if res.stats.proved > proved0:
+                res.stats.nontrivial += 1
             res.stats.max_depth = max(res.stats.max_depth, len(p.decisions))
             if want_witness and len(res.witnesses) < want_witness:
                 m = p.model()
